@@ -63,6 +63,14 @@ def schedules(total, tier, rng, bounds):
         k = rng.randint(3, 8)
         cs = tuple(sorted(rng.sample(range(1, total), min(k, total - 1))))
         yield 'kcuts@%s' % (cs,), {'cuts': cs}
+    # a provider whose own maximum (= the size of its reads) is smaller than some of the peer's PDUs: reads that return
+    # exactly a full buffer, PDUs that need several reads
+    for lm in (128, 64):
+        yield 'lm%d-baseline' % lm, {'cuts': bounds, 'local_max': lm}
+        yield 'lm%d-at-once' % lm, {'local_max': lm}
+        for c in sorted({lm, 2 * lm, lm + 6, lm + 7, lm + 20} | {rng.randint(1, total - 1) for _ in range(6)}):
+            if 0 < c < total:
+                yield 'lm%d-cut@%d' % (lm, c), {'cuts': (c,), 'local_max': lm}
 
 
 class _Collector(object):
